@@ -54,6 +54,19 @@ func runC29(c *Ctx) {
 	defer db.Close()
 	texts := []string{"ls", "ls -l", "ls -la", "echo a", "echo b", "git status", "git commit", "g", "", "make", "ls"}
 	prefixes := []string{"", "l", "ls", "ls -l", "e", "echo ", "g", "git ", "x", "m"}
+	// Swarm knob: one run in four uses a larger vocabulary, a longer stored
+	// history and walks that keep going in one direction for a long time, so
+	// that walks get deep (dozens of distinct entries) rather than hovering
+	// around the newest few.
+	big := w.Chance(1, 4)
+	if big {
+		texts = nil
+		for i := 0; i < 16; i++ {
+			texts = append(texts, fmt.Sprintf("c%d", i))
+		}
+		prefixes = []string{"", "", "c", "c1", "x"}
+	}
+	backBias := true
 	var all []storedefs.Cmd // the shared database, in sequence order
 	addShared := func(text string) int {
 		seq, err := db.AddCmd(text)
@@ -66,6 +79,9 @@ func runC29(c *Ctx) {
 	nPre := w.Range(0, 12)
 	if c.Thorough() {
 		nPre = w.Range(0, 40)
+	}
+	if big {
+		nPre = w.Range(10, 50)
 	}
 	var events []c29event
 	for i := 0; i < nPre; i++ {
@@ -92,6 +108,9 @@ func runC29(c *Ctx) {
 	nEv := w.Range(5, 60)
 	if c.Thorough() {
 		nEv = w.Range(5, 200)
+	}
+	if big {
+		nEv = w.Range(40, 160)
 	}
 	viewOf := func(s *sessModel, prefix string) []storedefs.Cmd {
 		var v []storedefs.Cmd
@@ -195,6 +214,13 @@ func runC29(c *Ctx) {
 			ci := w.Draw(len(cursors))
 			cm := cursors[ci]
 			back := w.Chance(3, 5)
+			if big {
+				// long runs in one direction, occasionally reversed
+				if w.Chance(1, 25) {
+					backBias = !backBias
+				}
+				back = w.Chance(9, 10) == backBias
+			}
 			n := len(cm.view)
 			// In both models "backward" (Prev) moves towards older entries.
 			if cm.dedup {
